@@ -688,7 +688,16 @@ def extract_alloc(text, consts):
         fail("malloc strategy: unexpected allocation code %r" % (sts,))
     out["malloc"] = {"allocs": [".malloc"], "min": (".clamp %d" % clamp) if clamp else ".requested"}
     # mmap
-    sts = br["mmap"]
+    sts = list(br["mmap"])
+    # the rounded size is computed in size_t: without this check a request within a page of
+    # SIZE_MAX wraps to a tiny mapping whose only page is the guard page (found on the pinned
+    # tree: fiber_context_init(ctx, SIZE_MAX, ...) crashed).  `.pages` below promises its minimum
+    # for EVERY accepted request, so the check is required, not optional.
+    wrap_check = ("if", "context->ctx_stack_size<stack_size", [("stmt", "errno=ENOMEM"), ("stmt", "return 0")])
+    if len(sts) >= 2 and sts[1] == wrap_check:
+        sts.pop(1)
+    else:
+        fail("mmap strategy: the rounded stack size can wrap around (no `ctx_stack_size < stack_size` check after fiber_round_to_page_size)")
     if len(sts) != 4 or sts[0] != ("stmt", "context->ctx_stack_size=fiber_round_to_page_size(stack_size)") \
             or sts[1] != ("stmt", "context->ctx_stack=mmap(0,context->ctx_stack_size,PROT_READ|PROT_WRITE,MAP_PRIVATE|MAP_ANONYMOUS,-1,0)") \
             or sts[2] != ("if", "context->ctx_stack==MAP_FAILED", [("stmt", "return 0")]):
